@@ -6,6 +6,8 @@
 global size_of usize == 8;
 
 pub struct Cur { pub buf: Vec<u8>, pub pos: u64 }
+// the little-endian u32 at a position: a function of the bytes (which four-byte combination it is, is byteorder's business)
+pub uninterp spec fn le32(buf: Seq<u8>, pos: int) -> u32;
 
 impl Cur {
   pub fn position(&self) -> (p: u64) ensures p == self.pos { self.pos }
@@ -15,7 +17,7 @@ impl Cur {
 
   #[verifier::external_body]
   pub fn read_u8(&mut self) -> (o: Option<u8>)
-    ensures old(self).rem() >= 1 ==> o.is_some() && final(self).pos == old(self).pos + 1,
+    ensures old(self).rem() >= 1 ==> o.is_some() && final(self).pos == old(self).pos + 1 && o == Some(old(self).buf@[old(self).pos as int]),
             old(self).rem() < 1 ==> o.is_none() && final(self).pos == old(self).pos,
             final(self).buf == old(self).buf,
   { unimplemented!() }
@@ -27,7 +29,7 @@ impl Cur {
   { unimplemented!() }
   #[verifier::external_body]
   pub fn read_u32(&mut self) -> (o: Option<u32>)
-    ensures old(self).rem() >= 4 ==> o.is_some() && final(self).pos == old(self).pos + 4,
+    ensures old(self).rem() >= 4 ==> o.is_some() && final(self).pos == old(self).pos + 4 && o == Some(le32(old(self).buf@, old(self).pos as int)),
             old(self).rem() < 4 ==> o.is_none() && old(self).pos <= final(self).pos <= old(self).pos + old(self).rem(),
             final(self).buf == old(self).buf,
   { unimplemented!() }
